@@ -169,6 +169,47 @@ func checkMuxSplit(c *core.Ctx, l *core.Ledger, rule string) {
 			bad = append(bad, o.Name()+" at "+c.Rel(call.Pos()))
 		}
 	})
+	// a name without ':' yields a one-element split: the element after it is read only where the length test said it exists
+	core.Instrs(f, func(in ssa.Instruction) {
+		ia, isIA := in.(*ssa.IndexAddr)
+		if !isIA {
+			return
+		}
+		k, isK := core.ConstInt(ia.Index)
+		src, isCall := ia.X.(*ssa.Call)
+		if !isK || !isCall {
+			return
+		}
+		if o := core.CalleeObj(src); o == nil || o.Pkg() == nil || o.Pkg().Path() != "strings" {
+			return
+		}
+		if k == 0 {
+			return // SplitN always yields at least one element
+		}
+		edges := core.GuardEdges(f, func(cm core.Cmp) bool {
+			call, isLen := cm.X.(*ssa.Call)
+			if !isLen {
+				return false
+			}
+			if bi, isB := call.Call.Value.(*ssa.Builtin); !isB || bi.Name() != "len" || call.Call.Args[0] != ssa.Value(src) {
+				return false
+			}
+			n, isN := core.ConstInt(cm.Y)
+			if !isN {
+				return false
+			}
+			switch cm.Op {
+			case token.GTR:
+				return n >= k
+			case token.GEQ, token.EQL:
+				return n >= k+1
+			}
+			return false
+		})
+		if len(edges) == 0 || !core.AllPathsThroughEdges(f, ia.Block(), edges) {
+			bad = append(bad, fmt.Sprintf("element %d of the split is read at %s without a test that it exists (a name without ':' panics)", k, c.Rel(ia.Pos())))
+		}
+	})
 	l.Check(len(ok) > 0 && len(bad) == 0, rule, "Handler.Handle", c.Rel(f.Pos()), "the service prefix is taken off at the first ':' ("+strings.Join(uniq(ok), ", ")+")", "the handler does not split the method name at the first ':' ("+strings.Join(uniq(bad), ", ")+"): names containing ':' reach the wrong service")
 }
 
